@@ -327,13 +327,35 @@ def run(rep, tier, seed):
     rep.extra["tree_shape_classes_run"] = len({g.tree_shape(trees[ti]) for ti in picked})
     rep.extra["values_generated"] = n_values
     # typeRef spelling probes (reported, never judged)
+    # evaluator LIFETIMES on one thread: models of the same shape whose item definitions carry the same names with other
+    # types, built, used and dropped one after the other in ONE process (the main run spreads neighbours over 16 shards):
+    # what the code under test remembers about a model - by name, by address - must die with it
+    by_shape = {}
+    for idx, (side, ti, vals) in enumerate(meta):
+        if side == "output" and "builtin" not in trees[ti]:
+            by_shape.setdefault(g.tree_shape(trees[ti]), []).append(idx)
+    life = []
+    for shape_, idxs in sorted(by_shape.items()):
+        seen, sel = set(), []
+        for i in idxs:
+            k = g.tree_shape(trees[meta[i][1]], True)
+            if k not in seen:
+                seen.add(k)
+                sel.append(i)
+        if len(sel) >= 2:
+            life += sel[:6]
+    life = life[: (120 if tier == "quick" else 1500)]
+    life_cases = [dict(cases[i]) for i in life]
+    life_meta = [meta[i] for i in life]
+    rep.extra["evaluator_lifetimes_in_one_process"] = len(life)
     probe_at = len(cases)
     for name, v in SPELLING_PROBES:
         xml = g.input_model_xml({"builtin": "string"}).replace('typeRef="string"', 'typeRef="%s"' % name)
         cases.append({"op": "model", "xml": xml, "calls": [["Echo", [["In", v]]]]})
     results, _ = runner.run_cases("dbg", cases, rep.workdir, label="trees", case_timeout=60.0)
+    lres, _ = runner.run_cases("dbg", life_cases, rep.workdir, label="lifetimes", case_timeout=60.0, nshards=1) if life_cases else ([], None)
     sampled = set()
-    for (side, ti, vals), res, case in zip(meta, results[:probe_at], cases[:probe_at]):
+    for (side, ti, vals), res, case in zip(meta + life_meta, results[:probe_at] + lres, cases[:probe_at] + life_cases):
         tree = trees[ti]
         if _dead(rep, res, case, side, tree):
             continue
